@@ -84,6 +84,10 @@ func (d *c03) startOn(o *lObj, beh int) {
 	}
 }
 
+// the object kinds of C03's histories (the connected-datagram conn of C01 is not among them: its reads cannot be
+// made completable once the remote port is closed, which RunPending's liveness oracle needs)
+var c03Kinds = []lKind{lkConnDial, lkConnAcc, lkAdapter, lkFifoR, lkFifoW, lkRegular, lkListener, lkPacket, lkPeer}
+
 func (d *c03) behave(s *loop, op *lOp) {
 	w := d.w
 	if op.err != nil {
@@ -302,7 +306,7 @@ func runC03(c *Ctx) {
 	defer d.closeAll()
 	nObj := w.Range(1, 5)
 	for i := 0; i < nObj; i++ {
-		d.addObj(c01Kinds[w.Choose(len(c01Kinds))])
+		d.addObj(c03Kinds[w.Choose(len(c03Kinds))])
 	}
 	for i, n := 0, w.Range(0, 3); i < n; i++ {
 		t, err := sonic.NewTimer(d.ioc)
